@@ -1363,6 +1363,8 @@ class LiveThirdStep:
         self.second_per_kind = second_per_kind
         self.third_per_kind = third_per_kind
         self._count = Counter()
+        self._seen = Counter()
+        self._plans = {}
         self.touch_before = any(getattr(m, 'touch_before', False) for m in inner)
 
     def _spread(self, cases):
@@ -1386,15 +1388,29 @@ class LiveThirdStep:
         from .explore import Ctx
         obs = ctx.obs
         kind = ctx.case['kind']
-        if obs.exc is not None or obs.after is None or not ctx.changed:
-            return
         if self.slices is not None:
             from . import spec
             sl = self.slices.get(ctx.before)
             if sl is not None and kind in spec.ALL_KINDS and list(spec.ALL_KINDS).index(kind) % sl[1] != sl[0]:
                 return
+        # first messages are spread over the menu of the state: per class the candidates at positions 0, (n-1)//2, ... of
+        # the class's cases (the next changing one if that one changes nothing), not simply the first ones
         key = (hash(ctx.before), kind)
-        if self._count[key] >= self.first_per_kind:
+        plan = self._plans.get(hash(ctx.before))
+        if plan is None:
+            counts = Counter(c['kind'] for c in ctx.harness.menu(ctx.view, _NullRes()))
+            plan = {}
+            for k_, n_ in counts.items():
+                f = self.first_per_kind
+                plan[k_] = sorted({(j * (n_ - 1)) // f for j in range(f)})
+            self._plans[hash(ctx.before)] = plan
+        self._seen[key] += 1
+        idx = self._seen[key] - 1
+        if obs.exc is not None or obs.after is None or not ctx.changed:
+            return
+        wanted = plan.get(kind, [0])
+        done = self._count[key]
+        if done >= len(wanted) or idx < wanted[done]:
             return
         self._count[key] += 1
         av = ctx.after_view
